@@ -19,6 +19,15 @@ def main(argv):
         print(__doc__)
         return 2
     os.environ.setdefault("PYTHONHASHSEED", "0")
+    if not os.environ.get("DRFVERIF_DEBUG"):
+        # the C library and HDF5 report expected rejections on the C-level stderr: silence fd 2,
+        # keep Python's sys.stderr on a duplicate of the original descriptor
+        sys.stderr.flush()
+        saved = os.dup(2)
+        devnull = os.open(os.devnull, os.O_WRONLY)
+        os.dup2(devnull, 2)
+        os.close(devnull)
+        sys.stderr = os.fdopen(saved, "w", buffering=1)
     try:
         stage.activate()
     except stage.BuildError as e:
